@@ -85,15 +85,21 @@ func genCluster(r *mrand.Rand, prop, tier string) simcore.Case {
 	switch prop {
 	case "C01":
 		nf := 1 + r.IntN(3)
+		// most plans leave no survivor (see known finding "surviving worker redeployed in place")
+		survivors := r.IntN(8) == 0
 		for i := 0; i < nf; i++ {
 			at := faultTime(r, horizon)
-			switch r.IntN(10) {
-			case 0, 1:
+			switch x := r.IntN(10); {
+			case x < 2 && cs.Cfg["workers"] == 1:
 				cs.Ops = append(cs.Ops, simcore.Op{K: "kill-job", A: []int64{at, 1 + int64(r.IntN(20))}})
-			case 2:
+			case x < 2:
+				cs.Ops = append(cs.Ops, simcore.Op{K: "kill-all", A: []int64{at, 0, 1 + int64(r.IntN(20)), 1}}) // job and every worker
+			case x == 2 && (survivors || cs.Cfg["workers"] == 1):
 				cs.Ops = append(cs.Ops, simcore.Op{K: "stop-worker", A: []int64{at, int64(r.IntN(3)), 1 + int64(r.IntN(20))}})
-			default:
+			case survivors || cs.Cfg["workers"] == 1:
 				cs.Ops = append(cs.Ops, simcore.Op{K: "kill-worker", A: []int64{at, int64(r.IntN(3)), 1 + int64(r.IntN(20))}})
+			default:
+				cs.Ops = append(cs.Ops, simcore.Op{K: "kill-all", A: []int64{at, 0, 1 + int64(r.IntN(20)), 0}}) // every worker, the job survives
 			}
 		}
 		if r.IntN(3) == 0 {
@@ -448,6 +454,32 @@ func (w *cluWorld) applyFault(op simcore.Op) {
 		c.Fault("worker-stopped")
 		simrt.Sleep("restart-delay", time.Duration(op.Arg(2))*time.Second)
 		w.startWorker()
+	case "kill-all": // every worker dies at once (and the job too if Arg(3) == 1)
+		for _, wk := range w.workerList() {
+			if w.net.alive(wk.host) {
+				c.S.KillGroup(wk.group)
+				w.disk.Kill("op-" + wk.opID)
+				w.net.kill(wk.host)
+			}
+		}
+		c.Fault("all-workers-killed")
+		c.Fault("worker-killed")
+		if op.Arg(3) == 1 {
+			w.mu.Lock()
+			group := fmt.Sprintf("job%d", w.jobInc)
+			w.mu.Unlock()
+			c.S.KillGroup(group)
+			w.disk.Kill(group)
+			w.net.kill("job")
+			c.Fault("job-killed")
+		}
+		simrt.Sleep("restart-delay", time.Duration(op.Arg(2))*time.Second)
+		if op.Arg(3) == 1 {
+			w.startJob("")
+		}
+		for i := 0; i < w.workerCount+int(c.Cfg("standby", 0)); i++ {
+			w.startWorker()
+		}
 	case "kill-job":
 		w.mu.Lock()
 		group := fmt.Sprintf("job%d", w.jobInc)
@@ -652,43 +684,66 @@ func (w *cluWorld) checkStreams() {
 	}
 }
 
-// C16(b): every split is assigned to exactly one runner per assembly round
+// C16(b): every split is assigned to exactly one runner of the assembly the
+// splitter was created for, the runner is told exactly that, and after a
+// recovery the position handed out is the one in the checkpoint the job
+// restored from (decoded independently from the published snapshot).
 func (w *cluWorld) checkAssignments() {
 	c, prop := w.c, w.prop
 	w.mu.Lock()
 	defer w.mu.Unlock()
-	// group assignment RPCs into rounds: a new round starts when a runner is assigned a second time
-	type round struct {
-		bySplit map[string][]string
-		seen    map[string]bool
+	w.src.mu.Lock()
+	defer w.src.mu.Unlock()
+	var rounds []int
+	for r := range w.src.roundAssign {
+		rounds = append(rounds, r)
 	}
-	var rounds []*round
-	cur := &round{bySplit: map[string][]string{}, seen: map[string]bool{}}
-	for _, a := range w.assigns {
-		if cur.seen[a.srID] {
-			rounds = append(rounds, cur)
-			cur = &round{bySplit: map[string][]string{}, seen: map[string]bool{}}
-		}
-		cur.seen[a.srID] = true
-		for sp := range a.splits {
-			cur.bySplit[sp] = append(cur.bySplit[sp], a.srID)
-		}
-	}
-	rounds = append(rounds, cur)
-	for ri, r := range rounds {
-		if len(r.seen) == 0 {
-			continue
+	sort.Ints(rounds)
+	for _, r := range rounds {
+		owners := map[string][]string{}
+		for sr, m := range w.src.roundAssign[r] {
+			for sp := range m {
+				owners[sp] = append(owners[sp], sr)
+			}
 		}
 		for s := range w.src.splits {
-			owners := r.bySplit[fmt.Sprint(s)]
-			if len(owners) > 1 {
-				c.Violate(prop+"/split-assigned-twice", "assignment round %d: split %d was assigned to %v", ri, s, owners)
+			if n := len(owners[fmt.Sprint(s)]); n != 1 {
+				c.Violate(prop+"/split-owners", "assignment round %d: split %d has %d readers %v", r, s, n, owners[fmt.Sprint(s)])
 				return
 			}
-			if len(owners) == 0 && len(r.seen) >= w.workerCount {
-				c.Violate(prop+"/split-unassigned", "assignment round %d: split %d was assigned to no runner (runners: %v)", ri, s, sortedStrings(r.seen))
+		}
+		if id, ok := w.src.roundCkpt[r]; ok {
+			jc := w.published[id]
+			if jc == nil {
+				c.Violate(prop+"/restored-unpublished-checkpoint", "assignment round %d restored source positions of checkpoint %d which was never published", r, id)
 				return
 			}
+			want := map[string]int64{}
+			for _, b := range jc.SourceCheckpoints[0].SplitStates {
+				var st simSplitState
+				if jsonUnmarshal(b, &st) == nil {
+					want[st.SplitID] = st.Cursor
+				}
+			}
+			for _, m := range w.src.roundAssign[r] {
+				for sp, cur := range m {
+					if cur != want[sp] {
+						c.Violate(prop+"/restored-position", "assignment round %d (restore of checkpoint %d): split %s resumes at %d, the checkpoint says %d", r, id, sp, cur, want[sp])
+						return
+					}
+				}
+			}
+			c.Probe("positions-restored-from-checkpoint")
+		}
+	}
+	for _, a := range w.assigns {
+		if a.round == 0 {
+			continue
+		}
+		want := w.src.roundAssign[a.round][a.srID]
+		if fmt.Sprint(want) != fmt.Sprint(a.splits) {
+			c.Violate(prop+"/assignment-delivered", "runner %s was sent %v in round %d, the splitter assigned it %v", a.srID, a.splits, a.round, want)
+			return
 		}
 	}
 }
